@@ -1174,9 +1174,9 @@ func azDeployments(c *suiteCtx) {
 	if e, err := newEnv(c, proxyCfg{Redis: true, AllowedGroups: []string{"admins"}, InjectRequest: defaultInject()}); err == nil {
 		for _, target := range []string{"/app/x", "/oauth2/auth", "/oauth2/userinfo"} {
 			ck := e.issueSessionCookie(e.sessionFor(u, time.Minute)) // a valid session whose groups no longer satisfy the rule
-			e.redisFault = map[string]string{"DEL": "always"}
+			e.setRedisFault(map[string]string{"DEL": "always"})
 			v := e.do(reqSpec{Target: target, Cookie: ck})
-			e.redisFault = nil
+			e.setRedisFault(nil)
 			cleared := false
 			for _, sc := range v.Cookies {
 				if isSessionCookieNameH(e.opts.Cookie.Name, sc.Name) && (sc.MaxAge < 0 || sc.Value == "") {
